@@ -398,3 +398,32 @@ Example C11_default_pair_completes :
   exists o, negotiate cfg_default (with_key cfg_default 1) false = Some (Ok o) /\
             o_version o = v12 /\ o_suite o = 49195 /\ o_group o = 29 /\ o_sig o = 2055 /\ o_ems o = true.
 Proof. eexists. vm_compute. repeat split. Qed.
+
+(* ================================================================== ALPN policy, byte level (round g) *)
+From Coq Require Import List.
+From DtlsV Require Import Neg.C01Names Neg.C01NamesSound Neg.C11Names Neg.C11NamesSound.
+
+(* what ALPNProtocolSelection answers is, byte for byte, an entry of the server's list and of the offer *)
+Theorem C11_alpn_selection_within_both_lists : forall own peer n,
+  select name_eqb own peer = Some n -> In n own /\ In n peer.
+Proof. exact alpn_selection_within_both_lists. Qed.
+Print Assumptions C11_alpn_selection_within_both_lists.
+
+(* whenever both sides complete with a protocol, each side's value is an entry of BOTH configured lists *)
+Theorem C11_alpn_done_within_both_policies : forall cl sl c s,
+  alpn12_as_coded cl sl = AlpnDone c s -> (In c cl /\ In c sl) /\ (In s cl /\ In s sl).
+Proof. exact alpn_done_within_both_policies. Qed.
+Print Assumptions C11_alpn_done_within_both_policies.
+
+Theorem C11_alpn_peer_spelling_harmless_under_byte_equality : forall own peer,
+  select_peer name_eqb own peer = select name_eqb own peer.
+Proof. exact select_peer_exact_is_select. Qed.
+Print Assumptions C11_alpn_peer_spelling_harmless_under_byte_equality.
+
+(* REFUTED for the variant that matches ignoring ASCII case and answers in the peer's spelling: both
+   sides complete with a protocol outside the server's list where the code as it is refuses *)
+Theorem C11_alpn_folded_peer_spelling_outside_policy_refuted :
+  exists cl sl c s, alpn12_peer_spelling fold_eqb cl sl = AlpnDone c s /\ c = s /\ ~ In s sl /\
+                    alpn12_as_coded cl sl = AlpnRefusedByServer.
+Proof. exact alpn_folded_peer_spelling_outside_policy_refuted. Qed.
+Print Assumptions C11_alpn_folded_peer_spelling_outside_policy_refuted.
